@@ -214,6 +214,8 @@ func c06Run(c *Ctx) {
 		}
 	}
 	Flags{}.Apply()
+	// every line length up to past the reader's limit, five line shapes, on the real stream code
+	streamLenSweep(c, "C06", []string{"secret-pad", "keep-blanks", "keep-mixed", "fixed-point", "array-pad"}, Flags{})
 	switch c.Shard {
 	case 3:
 		c06Volume(c, 6000, Flags{})
